@@ -110,7 +110,7 @@ PROPS = {
     "C09": {
         "modules": ["PgBifrost.Props.C09"],
         "components": ["parser"],
-        "required_theorems": ["PgBifrost.Props.C09.parse_total", "PgBifrost.Props.C09.parse_render", "PgBifrost.Props.C09.parser_switch_as_in_source", "PgBifrost.Props.C09.parser_prologue_as_in_source"],
+        "required_theorems": ["PgBifrost.Props.C09.parse_total", "PgBifrost.Props.C09.parse_render", "PgBifrost.Props.C09.parser_switch_as_in_source", "PgBifrost.Props.C09.parser_prologue_as_in_source", "PgBifrost.Props.C09.xlog_to_walmessage_as_in_source"],
         "partial": "round trip proved for every well-formed change whose printed tuples are non-empty (finding empty_tuple: "
                    "relations without columns make the decoder fail; recorded)",
         "assumptions": ["TestDecoding.render is the output grammar of contrib/test_decoding with default options "
